@@ -2,6 +2,14 @@
 
 package stats
 
+import (
+	"bytes"
+	"encoding/gob"
+	"sort"
+
+	"go.etcd.io/bbolt"
+)
+
 // VerifStartWithoutFlusher is Start without the periodic flush goroutine: the
 // HTTP handlers are registered, and the harness calls VerifFlush itself at the
 // points where the goroutine would find that the hour has changed.  (Two
@@ -16,4 +24,49 @@ func VerifStartWithoutFlusher(s Interface) {
 // unit's, the current unit is written to the database and a new one starts.
 func VerifFlush(s Interface) {
 	s.(*StatsCtx).flush()
+}
+
+// VerifUnit is what one stored unit of stats.db says about clients and domains.
+type VerifUnit struct {
+	Clients map[string]uint64
+	Domains map[string]uint64
+	ID      uint32
+	NTotal  uint64
+}
+
+// VerifReadDB reads the units stored in the database file (after Close), in
+// the order of their identifiers, straight from the bolt buckets.
+func VerifReadDB(filename string) (units []VerifUnit, err error) {
+	db, err := bbolt.Open(filename, 0o644, &bbolt.Options{ReadOnly: true})
+	if err != nil {
+		return nil, err
+	}
+	defer func() { _ = db.Close() }()
+
+	err = db.View(func(tx *bbolt.Tx) (ferr error) {
+		return tx.ForEach(func(name []byte, b *bbolt.Bucket) (berr error) {
+			id, ok := unitNameToID(name)
+			if !ok {
+				return nil
+			}
+
+			udb := &unitDB{}
+			berr = gob.NewDecoder(bytes.NewReader(b.Get([]byte{0}))).Decode(udb)
+			if berr != nil {
+				return berr
+			}
+
+			units = append(units, VerifUnit{
+				Clients: convertSliceToMap(udb.Clients),
+				Domains: convertSliceToMap(udb.Domains),
+				ID:      id,
+				NTotal:  udb.NTotal,
+			})
+
+			return nil
+		})
+	})
+	sort.Slice(units, func(i, j int) bool { return units[i].ID < units[j].ID })
+
+	return units, err
 }
